@@ -739,6 +739,21 @@ func dkgEngine(workdir string) {
 			}
 		case "use":
 			res = c.use(unhexStr(f[1]))
+		case "iatt":
+			// iatt <inst> <account hexstr> <att fields>: attestation through that instance's own signer + rules store
+			in := c.insts[u64(f[1])]
+			r, sig := in.signer.SignBeaconAttestation(context.Background(), &checker.Credentials{Client: "client1", RequestID: "r"},
+				unhexStr(f[2]), nil, parseAtt(strings.Split(f[3], ",")))
+			res = posStr(r, sig)
+		case "iprop":
+			in := c.insts[u64(f[1])]
+			r, sig := in.signer.SignBeaconProposal(context.Background(), &checker.Credentials{Client: "client1", RequestID: "r"},
+				unhexStr(f[2]), nil, parseProp(strings.Split(f[3], ",")))
+			res = posStr(r, sig)
+		case "combine":
+			// combine <account> <composite pub> <signing root> id:sig,id:sig… : do these partial signatures recover a
+			// signature valid under the composite key?
+			res = combine(unhex(f[2]), unhex(f[3]), f[4])
 		case "msglog":
 			res = strings.Join(c.log, " ")
 			if res == "" {
@@ -770,9 +785,13 @@ func dkgEngine(workdir string) {
 		case "hcontribute":
 			// a syntactically valid but otherwise arbitrary contribution
 			in := c.insts[u64(f[1])]
-			var sk bls.SecretKey
+			var sk, other, other2 bls.SecretKey
 			sk.SetByCSPRNG()
-			req := &pb.ContributeRequest{Account: unhexStr(f[3]), Secret: sk.Serialize(), VerificationVector: [][]byte{sk.GetPublicKey().Serialize()}}
+			other.SetByCSPRNG()
+			other2.SetByCSPRNG()
+			// a share that does not match its (two-entry) vector
+			req := &pb.ContributeRequest{Account: unhexStr(f[3]), Secret: sk.Serialize(),
+				VerificationVector: [][]byte{other.GetPublicKey().Serialize(), other2.GetPublicKey().Serialize()}}
 			_, err := in.handler.Contribute(callerCtx(hs(f[2])), wire(req, &pb.ContributeRequest{}))
 			res = errClassH(err)
 		// share ownership: what does `owner` hand to caller `asker` in reply to a valid contribution?
@@ -788,6 +807,36 @@ func dkgEngine(workdir string) {
 		c.close()
 		os.RemoveAll(c.dir)
 	}
+}
+
+func combine(pub, root []byte, parts string) string {
+	var sigs []bls.Sign
+	var ids []bls.ID
+	for _, p := range strings.Split(parts, ",") {
+		kv := strings.Split(p, ":")
+		var sg bls.Sign
+		if err := sg.Deserialize(unhex(kv[1])); err != nil {
+			return "bad:sig"
+		}
+		sigs = append(sigs, sg)
+		ids = append(ids, *blsID(u64(kv[0])))
+	}
+	var rec bls.Sign
+	if err := rec.Recover(sigs, ids); err != nil {
+		return "no"
+	}
+	comp, err := e2types.BLSPublicKeyFromBytes(pub)
+	if err != nil {
+		return "bad:pub"
+	}
+	sig, err := e2types.BLSSignatureFromBytes(rec.Serialize())
+	if err != nil {
+		return "no"
+	}
+	if sig.Verify(root, comp) {
+		return "valid"
+	}
+	return "no"
 }
 
 func errClassH(err error) string {
@@ -820,8 +869,9 @@ func (c *cluster) shareOwner(owner, asker uint64, account string) string {
 	if err != nil {
 		return "bad:tmp"
 	}
+	// only the owner as counterpart, so that the (randomly ordered) execute loop reaches it first
 	var parts []*core.Endpoint
-	for _, ep := range c.endpoints(c.ids) {
+	for _, ep := range c.endpoints([]uint64{asker, owner}) {
 		parts = append(parts, &core.Endpoint{ID: ep.Id, Name: ep.Name, Port: ep.Port})
 	}
 	t := uint32(len(c.ids)/2 + 1)
